@@ -1,10 +1,14 @@
 (* Runner for property C08: wire arguments -> Digest/Envelope.v -> wire result.
    The parameters of the model are instantiated from the case itself:
-     doc  := bytes      the canonical bytes of the parsed document (as the implementation's c14n
-                        printed them; cross-checked against an independent printer by the check)
+     doc  := bytes      a short token standing for the canonical bytes of the parsed document as the
+                        implementation's c14n printed them (distinct bytes <-> distinct tokens;
+                        the bytes themselves are cross-checked against an independent printer by
+                        the check; feeding 10 kB per case through the extracted wire parser is
+                        too slow)
      canon := identity
-     H    := the finite table given on the wire ( ( x<bytes> x<hash> ) ... ), computed by the
-             check with python's hashlib - not by the implementation
+     H    := the finite table given on the wire ( ( x<token> x<hash> ) ... ): sha256 of the
+             bytes the token stands for, computed by the check (hashlib / the harness's own
+             crypto/sha256) - not by the implementation's dsig
      structural := the boolean on the wire (did every Validate method of the parts pass)
      calc_doc := the observed result of the document's own calculation
    ops:  validate  <structural 0|1> <dig: ( ) | ( xalg xval )> x<doc> <table>
